@@ -124,9 +124,23 @@ def main():
     except Broken as e:
         print('BROKEN: %s' % e)
         return 2
-    except Exception:
-        print('BROKEN: harness crashed')
+    except Exception as e:
+        tb = traceback.extract_tb(e.__traceback__)
+        inner = tb[-1].filename if tb else ''
         traceback.print_exc()
+        if inner.startswith(os.path.join(common.REPO, 'vakt')):
+            # the implementation raised where the harness (which passes on the pinned tree) has no reason to expect it:
+            # the run cannot be completed, so no input is singled out, but the property is no longer shown to hold
+            f = Failure('unproved', {'exception': '%s: %s' % (type(e).__name__, str(e)[:300]),
+                                     'raised_in': '%s:%s %s' % (inner, tb[-1].lineno, tb[-1].name),
+                                     'traceback': traceback.format_exception(e)[-12:]}, None, None, None,
+                        'correspondence run aborted by an exception inside vakt',
+                        text='the correspondence run could not be completed: vakt raised %s in %s (line %s); no failing '
+                             'input could be searched for' % (type(e).__name__, tb[-1].name, tb[-1].lineno))
+            path = common.write_replay(pid, f, seed)
+            print('VIOLATION property=%s replay=%s no-failing-input-found' % (pid, os.path.relpath(path, common.VERIF)))
+            return 1
+        print('BROKEN: harness crashed')
         return 2
 
     # ---- verdict
